@@ -3,10 +3,180 @@ import Blue.Proofs.ManiAsIs
 import Blue.Proofs.ManiCrash
 import Blue.Proofs.ManiAlgebra
 import Blue.Proofs.ManiTorn
-/-! Property C13: the theorems the check builds and audits (spike inventory; the build phase
-    completes the list from DESIGN Appendix C.0). -/
-#print axioms Blue.ManiCrash.crash_recover
-#print axioms Blue.Mani.maniAlgebra_lawful
-#print axioms Blue.Mani.mani_crash_recover
-#print axioms Blue.Mani.torn_manifest
-#print axioms Blue.Mani.crash_in_rollover_breaks_chain
+import Blue.Proofs.ManiApi
+import Blue.Proofs.ManiChain
+import Blue.Proofs.ConstsTieC13
+/-! # Property C13 — manifest edits are atomic and durable; reopening replays exactly those applied
+
+Property theorems only.  Models: `Blue/Model/Mani.lean` (text format: lines `hex8(crc) action
+string`, separator line, the reader with `BufRead::lines` semantics, `apply_edit` on the sorted
+lists that stand for `BTreeSet<String>` / `BTreeMap<char,String>`, the repaired `Edit` API),
+`Blue/Model/ManiCrash.lean` (`_apply` and `rollover` as system-call blocks, crash between any two
+calls, two persistence models, the repaired `open` that finishes an interrupted rollover),
+`Blue/Model/ManiDir.lean` (the rollover rule, `Manifest::verify`'s chain check, file bytes) and
+`Blue/Model/Crc32c.lean`.  The driver executes exactly these definitions with `crc := crc32c`.
+
+Granularity: the crash theorems are about whole system calls (an edit is one `write`); a cut at
+an arbitrary byte is `torn_manifest`, whose hypothesis `NoCollision` (no proper prefix of a written
+line carries that line's CRC) is a statement about CRC-32C that no theorem can discharge. -/
+namespace Blue.Props.C13
+open Blue.Mani Blue.ManiCrash
+
+/-- the separator and the reader's length test are the ones in the Rust source -/
+theorem constants_from_source :
+    SEP = Blue.Generated.maniTxSeparator ∧ Blue.Generated.maniMinLine = 9 :=
+  ⟨Blue.ConstsTie.mani_separator, Blue.ConstsTie.mani_min_line⟩
+
+/-- the checksum the driver runs is a 32-bit function and has CRC-32C's check value -/
+theorem crc32c_is_crc :
+    CrcOk Blue.Crc32c.crc32c ∧ Blue.Crc32c.crc32c [49, 50, 51, 52, 53, 54, 55, 56, 57] = 0xE3069283 :=
+  ⟨crcOk_crc32c, crc32c_check⟩
+
+/-- **replay**: reading back what a sequence of `apply` calls wrote yields exactly those edits, in
+    order, without error — for every checksum function and every list of edits the API can build -/
+theorem replay_roundtrip (crc : List Nat → Nat) (hcrc : CrcOk crc) (es : List Edit) (f : Nat)
+    (hok : ∀ e ∈ es, e.Ok) :
+    readEdits crc (f + 1 + (es.map lineCount).sum) (es.flatMap (encodeEdit crc)) Edit.empty = (es, false) :=
+  Blue.Mani.replay_roundtrip crc hcrc es f hok
+
+/-- `Edit.Ok` is exactly what the repaired `Edit::add` / `rm` / `info` enforce: every edit built
+    through the API satisfies it, every roll-up `rollover` writes satisfies it, and a string is
+    refused iff the reader could not hand it back -/
+theorem api_enforces_hypothesis :
+    (∀ e, Built e → e.Ok)
+    ∧ (∀ es : List Edit, (∀ e ∈ es, e.Ok) → (maniAlgebra.rollup (replay maniAlgebra es)).Ok)
+    ∧ (∀ (e : Edit) (s : List Nat), e.addStr s = none ↔ ¬ StrOk s) :=
+  ⟨fun _ h => h.ok, rollup_ok, api_rejects_iff⟩
+
+/-- so: a manifest written through the API with CRC-32C reads back as written -/
+theorem replay_roundtrip_api (es : List Edit) (hb : ∀ e ∈ es, Built e) :
+    readEdits Blue.Crc32c.crc32c (1 + (es.map lineCount).sum) (es.flatMap (encodeEdit Blue.Crc32c.crc32c)) Edit.empty
+      = (es, false) := by
+  have := Blue.Mani.replay_roundtrip Blue.Crc32c.crc32c crcOk_crc32c es 0 (fun e he => (hb e he).ok)
+  simpa using this
+
+/-- **truncation**: a MANIFEST holding `es`, cut at *any* byte `m`, reads as a corruption error or
+    as `es.take c` — whole edits only, in order, none invented -/
+theorem torn_manifest (crc : List Nat → Nat) (hcrc : CrcOk crc) (es : List Edit) (hok : ∀ e ∈ es, e.Ok)
+    (hnc : ∀ l ∈ linesOf es, l.NoCollision crc) (m f : Nat) :
+    (readEdits crc (f + 2 + (linesOf es).length) ((es.flatMap (encodeEdit crc)).take m) Edit.empty).2 = true
+    ∨ ∃ c, readEdits crc (f + 2 + (linesOf es).length) ((es.flatMap (encodeEdit crc)).take m) Edit.empty
+        = (es.take c, false) :=
+  Blue.Mani.torn_manifest crc hcrc es hok hnc m f
+
+/-- `to_edit` / `apply_edit` on sorted sets: rolling a reachable state up and applying the roll-up
+    to the empty state gives the state back -/
+theorem maniAlgebra_lawful : Lawful maniAlgebra := Blue.Mani.maniAlgebra_lawful
+
+/-- **crash**: for every history of edits and rollovers (any rollover ratio: a rollover may follow
+    any edit), every crash point among append / sync / link / unlink / write / sync / rename and
+    both persistence models, reopening yields the state after a prefix of the applied edits that
+    contains every edit whose call had returned -/
+theorem crash_recover {St E : Type} (A : Algebra St E) (hlaw : Lawful A) (h : List (Client E)) (fs : Fs E)
+    (sofar : List E) (hinv : Inv A fs sofar) (n : Nat) :
+    Ok A (recoverB A (run fs ((opsOf A h sofar).take n))) (sofar ++ editsOf h)
+      (sofar.length + acked ((opsOf A h sofar).take n)) (sofar.length + appended ((opsOf A h sofar).take n))
+    ∧ Ok A (recoverA A (run fs ((opsOf A h sofar).take n))) (sofar ++ editsOf h)
+      (sofar.length + acked ((opsOf A h sofar).take n)) (sofar.length + appended ((opsOf A h sofar).take n)) :=
+  Blue.ManiCrash.crash_recover A hlaw h fs sofar hinv n
+
+/-- … for the manifest's own states and edits, from the empty directory -/
+theorem mani_crash_recover (h : List (Client Edit)) (n : Nat) :
+    Ok maniAlgebra (recoverB maniAlgebra (run emptyFs ((opsOf maniAlgebra h []).take n))) (editsOf h)
+      (acked ((opsOf maniAlgebra h []).take n)) (appended ((opsOf maniAlgebra h []).take n))
+    ∧ Ok maniAlgebra (recoverA maniAlgebra (run emptyFs ((opsOf maniAlgebra h []).take n))) (editsOf h)
+      (acked ((opsOf maniAlgebra h []).take n)) (appended ((opsOf maniAlgebra h []).take n)) := by
+  have := Blue.Mani.mani_crash_recover h emptyFs [] ⟨rfl, rfl⟩ n
+  simpa using this
+
+/-- **chain**, without a crash: after any history of edits and rollovers every fragment after the
+    first starts with the roll-up of its predecessor (`Manifest::verify` reports nothing) -/
+theorem chain_crash_free (h : List (Client Edit)) :
+    chainOk (fragments (run emptyFs (opsOf maniAlgebra h []))) = true :=
+  Blue.Mani.chain_crash_free h
+
+/-- **chain**, across a crash (D-13 repaired): whatever the crash point and persistence model, after
+    the reopen's rollover the fragments still chain -/
+theorem chain_after_crash_and_reopen (h : List (Client Edit)) (n : Nat) :
+    let fs := run emptyFs ((opsOf maniAlgebra h []).take n)
+    chainOk (fragments (run (crashA fs) (reopenOps maniAlgebra (crashA fs)))) = true
+    ∧ chainOk (fragments (run (crashB fs) (reopenOps maniAlgebra (crashB fs)))) = true :=
+  Blue.Mani.chain_after_crash_and_reopen h n
+
+/-! ## the defects, as theorems about the code as it was -/
+
+/-- D-24: an info entry keyed `+` / `-` is read back as an addition / a removal -/
+theorem as_is_info_plus_minus_misread :
+    readEdits crc0 10 (encodeEdit crc0 ⟨[], [], [(43, [120])]⟩) Edit.empty = ([⟨[], [[120]], []⟩], false)
+    ∧ readEdits crc0 10 (encodeEdit crc0 ⟨[], [], [(45, [120])]⟩) Edit.empty = ([⟨[[120]], [], []⟩], false) :=
+  ⟨info_plus_misread, info_minus_misread⟩
+
+/-- D-12: the empty string's line is rejected on reopen; a trailing `\r` is lost to `lines()` -/
+theorem as_is_unreadable_strings :
+    readEdits crc0 10 (encodeEdit crc0 ⟨[], [[]], []⟩) Edit.empty = ([], true)
+    ∧ readEdits crc0 10 (encodeEdit crc0 ⟨[], [[120, 13]], []⟩) Edit.empty = ([⟨[], [[120]], []⟩], false) :=
+  ⟨empty_string_unreadable, trailing_cr_lost⟩
+
+/-- … and the repaired API refuses each of these inputs -/
+theorem repaired_api_refuses :
+    Edit.empty.addStr [] = none ∧ Edit.empty.addStr [120, 13] = none ∧ Edit.empty.addStr [195, 169] = none
+    ∧ Edit.empty.setInfo 43 [120] = none ∧ Edit.empty.setInfo 45 [120] = none ∧ Edit.empty.setInfo 107 [] = none := by
+  decide
+
+/-- D-13, `open` as it was: a crash between the `link` and the `rename` of a rollover, then reopen:
+    state intact, chain broken -/
+theorem as_is_crash_in_rollover_breaks_chain :
+    let crashed := crashB (run start ((opsOf maniAlgebra [.edit e2, .rollover] [e1]).take 4))
+    let reopened := run crashed (reopenOpsAsIs maniAlgebra crashed)
+    recoverB maniAlgebra reopened = replay maniAlgebra [e1, e2] ∧ chainOk (fragments reopened) = false :=
+  crash_in_rollover_breaks_chain
+
+/-- the Appendix-B mutant: renaming the temporary before it is synced loses the manifest under
+    persistence model (b) -/
+theorem mutant_rename_before_sync_loses {St E : Type} (A : Algebra St E) (e roll : E) :
+    recoverB A (run ({ mani := ⟨[e], []⟩, tmp := none, backups := [] } : Fs E)
+      [.linkBackup, .tmpClear, .tmpWrite roll, .rename]) = A.empty :=
+  rename_before_sync_loses A e roll
+
+/-! ## non-vacuity -/
+
+/-- an edit with a removal, two additions (one holding `\r` and NUL inside) and an info meets `Edit.Ok`,
+    and is what the API builds -/
+example : Built ⟨[[97]], [[0, 13, 98], [97]], [(73, [120])]⟩ :=
+  .info (k := 73) (v := [120]) (.rm (s := [97]) (.add (s := [0, 13, 98]) (.add (s := [97]) .empty rfl) rfl) rfl) rfl
+example : (⟨[[97]], [[0, 13, 98], [97]], [(73, [120])]⟩ : Edit).Ok :=
+  Built.ok (.info (k := 73) (v := [120]) (.rm (s := [97]) (.add (s := [0, 13, 98]) (.add (s := [97]) .empty rfl) rfl) rfl) rfl)
+/-- the crash theorem's invariant holds for the empty directory, and a history with a rollover has
+    crash points inside the link–rename window -/
+example : Inv maniAlgebra emptyFs [] := ⟨rfl, rfl⟩
+example : (match ((opsOf maniAlgebra [.edit e1, .edit e2, .rollover] []).take 7).getLast? with
+    | some .linkBackup => true | _ => false) = true := rfl
+/-- `NoCollision` is satisfiable: it holds for the lines of a small manifest under CRC-32C -/
+example : ∀ l ∈ linesOf [⟨[], [[97, 98, 99]], []⟩], l.NoCollision Blue.Crc32c.crc32c := by
+  intro l hl
+  simp only [linesOf, items, List.flatMap_cons, List.flatMap_nil, List.map_nil, List.map_cons, List.nil_append,
+    List.append_nil, List.cons_append, List.mem_cons, List.not_mem_nil, or_false] at hl
+  rcases hl with rfl | rfl
+  · intro q h1 h2
+    have hq : q = 2 ∨ q = 3 := by simp only [Item.body, List.length_cons, List.length_nil] at h2; omega
+    rcases hq with rfl | rfl <;> decide +kernel
+  · trivial
+
+end Blue.Props.C13
+
+#print axioms Blue.Props.C13.constants_from_source
+#print axioms Blue.Props.C13.crc32c_is_crc
+#print axioms Blue.Props.C13.replay_roundtrip
+#print axioms Blue.Props.C13.api_enforces_hypothesis
+#print axioms Blue.Props.C13.replay_roundtrip_api
+#print axioms Blue.Props.C13.torn_manifest
+#print axioms Blue.Props.C13.maniAlgebra_lawful
+#print axioms Blue.Props.C13.crash_recover
+#print axioms Blue.Props.C13.mani_crash_recover
+#print axioms Blue.Props.C13.chain_crash_free
+#print axioms Blue.Props.C13.chain_after_crash_and_reopen
+#print axioms Blue.Props.C13.as_is_info_plus_minus_misread
+#print axioms Blue.Props.C13.as_is_unreadable_strings
+#print axioms Blue.Props.C13.repaired_api_refuses
+#print axioms Blue.Props.C13.as_is_crash_in_rollover_breaks_chain
+#print axioms Blue.Props.C13.mutant_rename_before_sync_loses
